@@ -163,6 +163,8 @@ int sigma_build(pev *out, int cap, int variant) {
         ADD(ev_qlt(1, ST_M1, ST_M1, 5, 0x0E, 1000));
         ADD(ev_qlt(0, ST_M1, ST_M1, 5, 0x11, 0));
         ADD(ev_qlt(0, ST_M1, ST_M1, 0, 0x0E, 0));
+        ADD(ev_emit1(0, ST_M1, ST_M1, 0, 1, 0, ST_S0, ST_PEER));      /* unsequenced commands (sequence number 0) */
+        ADD(ev_query(0, ST_M1, ST_M1, 0));
         ADD(ev_raw(2, 0, ST_M3, ST_M3)); ADD(ev_raw(0, 9, ST_M1, ST_M1));
         ADD(ev_raw(0xEE, 0xF0, ST_ZERO, ST_ZERO));
         return n;
@@ -175,6 +177,8 @@ int sigma_build(pev *out, int cap, int variant) {
                 int st = m ? ST_M2 : ST_M1;
                 ADD(ev_discover((uint8_t)tos, st, br ? ST_BR : st, gens[g], seqs[s]));
             }
+        /* a Discover that names OUR address as its real source (spoofed, or a co-hosted mapper behind a bridge) */
+        ADD(ev_discover(0, ST_OWN, ST_BR, 0x1234, 1)); ADD(ev_discover(1, ST_OWN, ST_OWN, 0x1234, 1));
     } else {
         static const uint16_t gens[] = {0, 1, 0x00FF, 0xFF00, 0x1234, 0xFFFF}; static const uint16_t seqs[] = {0, 1, 0xABCD};
         static const int sts[] = {ST_M1, ST_M2, ST_M3};
@@ -211,6 +215,7 @@ int sigma_build(pev *out, int cap, int variant) {
     }
     ADD(ev_query(0, ST_M1, ST_M1, 2));
     if (variant == SIGMA_P) { ADD(ev_query(0, ST_M2, ST_BR, 0xFFFE)); ADD(ev_query(1, ST_M1, ST_M1, 2)); }
+    if (variant == SIGMA_P) { ADD(ev_query(0, ST_M1, ST_M1, 0)); ADD(ev_emit1(0, ST_M1, ST_M1, 0, 1, 0, ST_S0, ST_PEER)); }      /* unsequenced commands (sequence number 0) */
     ADD(ev_qlt(0, ST_M1, ST_M1, 5, 0x0E, 0));
     if (variant == SIGMA_P) {
         ADD(ev_qlt(0, ST_M1, ST_M1, 5, 0x0E, 1000)); ADD(ev_qlt(0, ST_M1, ST_M1, 5, 0x0E, 2600)); ADD(ev_qlt(0, ST_M1, ST_M1, 5, 0x0E, 0xFFFF));
